@@ -60,6 +60,11 @@ type realm struct {
 	// Used by close() to wait for sessions to exit.
 	waitHandlers sync.WaitGroup
 
+	// Sessions whose handler exited because of realm shutdown. They are not
+	// removed from broker and dealer, which may still send to them, so their
+	// peers are closed by close() after broker and dealer have stopped.
+	shutdownSessions []*wamp.Session
+
 	// Session meta-procedure registration ID -> handler map.
 	metaProcMap map[wamp.ID]func(*wamp.Invocation) wamp.Message
 	metaDone    chan struct{}
@@ -229,6 +234,13 @@ func (r *realm) close() {
 	r.dealer.close()
 	r.broker.close()
 
+	// Broker and dealer can no longer send to any session, so it is now safe
+	// to close the peers of the sessions that were shut down.
+	for _, sess := range r.shutdownSessions {
+		sess.Close()
+	}
+	r.shutdownSessions = nil
+
 	// Finally close realm's action channel.
 	close(r.actionChan)
 	<-r.stopped
@@ -354,10 +366,14 @@ func (r *realm) onLeave(sess *wamp.Session, shutdown, killAll bool) {
 		}
 
 		// If realm is shutdown, do not bother to remove session from broker
-		// and dealer. They will be closed after sessions are closed.
+		// and dealer. They will be closed after sessions are closed. Since
+		// they may send to the session until then, its peer must stay open
+		// until they have stopped.
 		if !shutdown {
 			r.dealer.removeSession(sess)
 			r.broker.removeSession(sess)
+		} else {
+			r.shutdownSessions = append(r.shutdownSessions, sess)
 		}
 		close(sync)
 	}
@@ -432,7 +448,9 @@ func (r *realm) handleSession(sess *wamp.Session) error {
 			}
 		}
 		r.onLeave(sess, shutdown, killAll)
-		sess.Close()
+		if !shutdown {
+			sess.Close()
+		}
 		r.waitHandlers.Done()
 	}()
 
